@@ -285,6 +285,14 @@ def build(sess):
         'connect: weak call-site contracts for _get_port_name / parse_version / min_version (bodies verified in C15/C19)',
     )
     methods = check_blocked(sess)
+    # how the latch gets SET: a fault in any of the three methods that talk to the port directly (timeout, error reply, wrong name,
+    # SerialException or plain OSError at the write or at any read) leaves err recorded and raises nothing -- the same obligations
+    # as C05's request contract, repeated here because "then transmits nothing" is only worth something if the error is recorded
+    from . import c05
+    kf = native('n_serial', 'kf_c05_1', {})
+    c05.check_request(sess, 'command', bool(kf.get('reproduces')))
+    c05.check_request(sess, 'query', False)
+    c05.check_statusbyte(sess)
     check_record_error(sess)
     check_frame_ast(sess)
     check_connect_disconnect(sess)
